@@ -85,9 +85,10 @@ def install():
         mod = importlib.import_module(modname)
         for nm in names:
             fn = getattr(mod, nm, None)
-            if fn is None or getattr(fn, "__symv_callform__", False) or hasattr(fn, "register"):
-                continue  # (singledispatch functions keep their dispatcher)
-            w = _wrap(fn, False)
+            if fn is None or getattr(fn, "__symv_callform__", False):
+                continue  # (singledispatch functions: the generic function's own signature is used)
+            # (functools.singledispatch dispatches on the first POSITIONAL argument)
+            w = _wrap(fn, hasattr(fn, "register"))
             if w is not None:
                 setattr(mod, nm, w)
                 # the package namespace re-exports some of them
